@@ -226,6 +226,16 @@ func main() {
 		}
 	}
 
+	// concurrent callers of one registration (normal and -race workers)
+	cs := runConc(e, self)
+	evals += cs.Calls
+	e.Extra("concurrent_configurations", cs.Configs)
+	e.Extra("concurrent_calls", cs.Calls)
+	e.Extra("race_configurations", cs.RaceConfigs)
+	e.Extra("race_reports", cs.RaceReports)
+	e.Extra("race_reports_attributed", cs.RaceAttributed)
+	e.Extra("unattributed_races", cs.Unattributed)
+
 	// samples: a few materialised cases
 	p := buildPools(e.Seed, nRand)
 	var samples []any
